@@ -37,79 +37,7 @@ def run(p: Program, rep: Report, tier: str) -> None:
         raise AnalysisError("URL.__init__/_build_url/__repr__/replace vanished")
     rep.analysed(init.fq, build.fq, rpr.fq, rpl.fq)
 
-    # ---------------------------------------------------------------- R18.1
-    paths, col, it = run_paths(p, init, url)
-    rep.cfg_paths += len(paths)
-    seen = {}
-    for pa in paths:
-        if pa.exit != "return":
-            continue
-        bs = [e for e in pa.events if e.kind == "call" and callee_is(e.a, "_build_url")]
-        which = None
-        if (("cmp", "Is", ("param", "scope"), NONE), False) in pa.facts:
-            which = "scope"
-        elif (("cmp", "Is", ("param", "environ"), NONE), False) in pa.facts:
-            which = "environ"
-        if which is None:
-            if bs:
-                rep.violation("R18.1", construct(init, text="_build_url without a gateway mapping"), where(init), "URL.__init__ builds a gateway URL on a path where neither scope nor environ was given")
-            continue
-        if len(bs) != 1 or len(bs[0].b) != 5:
-            rep.violation("R18.1", construct(init, text=f"{which} branch"), where(init), f"the {which} branch of URL.__init__ does not end in exactly one _build_url(scheme, path, query_string, server, host_header) call")
-            continue
-        sch, pth, qs, srv, host = [show(x) for x in bs[0].b]
-        seen[which] = True
-        if which == "scope":
-            exp = {
-                "scheme": sch == "scope.get('scheme', 'http')",
-                "path": pth == "(scope.get('root_path', '') + scope['path'])",
-                "query": qs == "scope.get('query_string', b'')",
-                "server": srv == "scope.get('server', None)",
-                "host": "decode('latin-1')" in host or host == "None",
-            }
-        else:
-            exp = {
-                "scheme": sch == "environ['wsgi.url_scheme']",
-                "path": pth.startswith("(environ.get('SCRIPT_NAME', '') + environ.get('PATH_INFO', ''))"),
-                "query": qs.startswith("environ.get('QUERY_STRING', '')"),
-                "server": srv == "(environ['SERVER_NAME'], int(environ['SERVER_PORT']))",
-                "host": host == "environ.get('HTTP_HOST', None)",
-            }
-        for k, ok in exp.items():
-            if ok:
-                rep.ok("R18.1", f"{which}: {k} argument of _build_url is the gateway's {k}")
-            else:
-                rep.violation("R18.1", construct(init, text=f"{which} branch: {k} = {dict(scheme=sch, path=pth, query=qs, server=srv, host=host)[k][:70]}"), where(init),
-                              f"the {which} branch passes a wrong {k} to _build_url ({dict(scheme=sch, path=pth, query=qs, server=srv, host=host)[k][:70]})")
-        # the built url is what is stored and split
-        st = [e for e in pa.events if e.kind == "store" and e.a == ("attr", ("param", "self"), "_url")]
-        built = ("call", bs[0].a, bs[0].b, bs[0].c, bs[0].tag)
-        if st and st[0].b == built:
-            rep.ok("R18.1", f"{which}: self._url is the built URL")
-        else:
-            rep.violation("R18.1", construct(init, text=f"{which}: _url"), where(init), f"the {which} branch does not store the URL it built")
-    if set(seen) != {"scope", "environ"}:
-        rep.undecide("R18.1", f"URL.__init__ branches found: {sorted(seen)}")
-    # asgi host header: the value of the first pair of scope['headers'] whose name equals b"host", decoded as Latin-1
-    HDRS = ("elem", ("sub", ("param", "scope"), ("const", "headers")))
-    host_ok = host_bad = False
-    for pa in paths:
-        if pa.exit != "return" or (("cmp", "Is", ("param", "scope"), NONE), False) not in pa.facts:
-            continue
-        bs = [e for e in pa.events if e.kind == "call" and callee_is(e.a, "_build_url")]
-        if len(bs) != 1 or len(bs[0].b) != 5 or bs[0].b[4] == NONE:
-            continue
-        h = bs[0].b[4]
-        name_eq = (("cmp", "Eq", ("unpack", HDRS, 0), ("const", b"host")), True) in pa.facts or (("cmp", "Eq", ("const", b"host"), ("unpack", HDRS, 0)), True) in pa.facts
-        val_ok = h[0] == "call" and h[1] == ("attr", ("unpack", HDRS, 1), "decode") and h[2][:1] in ((("const", "latin-1"),), (("const", "latin1"),), (("const", "iso-8859-1"),))
-        if name_eq and val_ok:
-            host_ok = True
-        else:
-            host_bad = True
-    if host_ok and not host_bad:
-        rep.ok("R18.1", "scope: the Host header is the Latin-1 decoded value of the scope['headers'] pair named b'host'")
-    else:
-        rep.violation("R18.1", construct(init, text="host header scan"), where(init), "the scope branch does not read the b'host' header")
+    gateway_url_branches(p, rep, "R18.1")
     rep.require_instances("R18.1", 12)
 
     # ---------------------------------------------------------------- R18.2
@@ -431,3 +359,86 @@ def run(p: Program, rep: Report, tier: str) -> None:
         if n5 == 0:
             rep.ok("R18.5", f"set semantics of the query helper: {c.name} item assignment/deletion does not delete by position inside a loop")
     rep.require_instances("R18.5", 1)
+
+
+def gateway_url_branches(p: Program, rep: Report, rule: str) -> None:
+    """The scope branch and the environ branch of URL.__init__ hand the corresponding gateway values to one builder
+    (C18 R18.1; reused by C04 for 'the same request gives the same URL on both interfaces')."""
+    url = p.cls(f"{DS}:URL")
+    init = url.methods.get("__init__")
+    if init is None:
+        raise AnalysisError("URL.__init__ vanished")
+    rep.analysed(init.fq)
+    # ---------------------------------------------------------------- R18.1
+    paths, col, it = run_paths(p, init, url)
+    rep.cfg_paths += len(paths)
+    seen = {}
+    for pa in paths:
+        if pa.exit != "return":
+            continue
+        bs = [e for e in pa.events if e.kind == "call" and callee_is(e.a, "_build_url")]
+        which = None
+        if (("cmp", "Is", ("param", "scope"), NONE), False) in pa.facts:
+            which = "scope"
+        elif (("cmp", "Is", ("param", "environ"), NONE), False) in pa.facts:
+            which = "environ"
+        if which is None:
+            if bs:
+                rep.violation(rule, construct(init, text="_build_url without a gateway mapping"), where(init), "URL.__init__ builds a gateway URL on a path where neither scope nor environ was given")
+            continue
+        if len(bs) != 1 or len(bs[0].b) != 5:
+            rep.violation(rule, construct(init, text=f"{which} branch"), where(init), f"the {which} branch of URL.__init__ does not end in exactly one _build_url(scheme, path, query_string, server, host_header) call")
+            continue
+        sch, pth, qs, srv, host = [show(x) for x in bs[0].b]
+        seen[which] = True
+        if which == "scope":
+            exp = {
+                "scheme": sch == "scope.get('scheme', 'http')",
+                "path": pth == "(scope.get('root_path', '') + scope['path'])",
+                "query": qs == "scope.get('query_string', b'')",
+                "server": srv == "scope.get('server', None)",
+                "host": "decode('latin-1')" in host or host == "None",
+            }
+        else:
+            exp = {
+                "scheme": sch == "environ['wsgi.url_scheme']",
+                "path": pth.startswith("(environ.get('SCRIPT_NAME', '') + environ.get('PATH_INFO', ''))"),
+                "query": qs.startswith("environ.get('QUERY_STRING', '')"),
+                "server": srv == "(environ['SERVER_NAME'], int(environ['SERVER_PORT']))",
+                "host": host == "environ.get('HTTP_HOST', None)",
+            }
+        for k, ok in exp.items():
+            if ok:
+                rep.ok(rule, f"{which}: {k} argument of _build_url is the gateway's {k}")
+            else:
+                rep.violation(rule, construct(init, text=f"{which} branch: {k} = {dict(scheme=sch, path=pth, query=qs, server=srv, host=host)[k][:70]}"), where(init),
+                              f"the {which} branch passes a wrong {k} to _build_url ({dict(scheme=sch, path=pth, query=qs, server=srv, host=host)[k][:70]})")
+        # the built url is what is stored and split
+        st = [e for e in pa.events if e.kind == "store" and e.a == ("attr", ("param", "self"), "_url")]
+        built = ("call", bs[0].a, bs[0].b, bs[0].c, bs[0].tag)
+        if st and st[0].b == built:
+            rep.ok(rule, f"{which}: self._url is the built URL")
+        else:
+            rep.violation(rule, construct(init, text=f"{which}: _url"), where(init), f"the {which} branch does not store the URL it built")
+    if set(seen) != {"scope", "environ"}:
+        rep.undecide(rule, f"URL.__init__ branches found: {sorted(seen)}")
+    # asgi host header: the value of the first pair of scope['headers'] whose name equals b"host", decoded as Latin-1
+    HDRS = ("elem", ("sub", ("param", "scope"), ("const", "headers")))
+    host_ok = host_bad = False
+    for pa in paths:
+        if pa.exit != "return" or (("cmp", "Is", ("param", "scope"), NONE), False) not in pa.facts:
+            continue
+        bs = [e for e in pa.events if e.kind == "call" and callee_is(e.a, "_build_url")]
+        if len(bs) != 1 or len(bs[0].b) != 5 or bs[0].b[4] == NONE:
+            continue
+        h = bs[0].b[4]
+        name_eq = (("cmp", "Eq", ("unpack", HDRS, 0), ("const", b"host")), True) in pa.facts or (("cmp", "Eq", ("const", b"host"), ("unpack", HDRS, 0)), True) in pa.facts
+        val_ok = h[0] == "call" and h[1] == ("attr", ("unpack", HDRS, 1), "decode") and h[2][:1] in ((("const", "latin-1"),), (("const", "latin1"),), (("const", "iso-8859-1"),))
+        if name_eq and val_ok:
+            host_ok = True
+        else:
+            host_bad = True
+    if host_ok and not host_bad:
+        rep.ok(rule, "scope: the Host header is the Latin-1 decoded value of the scope['headers'] pair named b'host'")
+    else:
+        rep.violation(rule, construct(init, text="host header scan"), where(init), "the scope branch does not read the b'host' header")
